@@ -468,10 +468,21 @@ impl Interpreter {
                             }
                         })?;
 
+                    // a module that does not lex or parse is reported at the import, not unwrapped
+                    let invalid_module = |_reports| RuntimeError {
+                        named_source: NamedSource::new(
+                            self.get_file_path(),
+                            import.module_name.source.clone(),
+                        ),
+                        span: import.module_name.span,
+                        message: format!("user module {} has syntax errors", module_name),
+                        label: "invalid module".to_string(),
+                        help: "run the module file on its own to see its errors".to_string(),
+                    };
                     // lex
-                    let lexed = aplang.lex().map_err(Reports::from).unwrap();
+                    let lexed = aplang.lex().map_err(invalid_module)?;
                     // parseRun
-                    let parsed = lexed.parse().map_err(Reports::from).unwrap();
+                    let parsed = lexed.parse().map_err(invalid_module)?;
                     // execute the module, get the exports
                     parsed.execute_as_module()?
                 };
